@@ -1,7 +1,8 @@
 import Gossamer.Base.Proto
 import Gossamer.Model.C29
 import Gossamer.Lib.SigRef
-open Gossamer Gossamer.C29 Gossamer.HashRef Gossamer.SigRef
+import Gossamer.Lib.SrRef
+open Gossamer Gossamer.C29 Gossamer.HashRef Gossamer.SigRef Gossamer.SrRef
 
 /- lines:
    `h <msg>`                      → `b8 b128 b256 keccak256 twox64 twox128 twox256 sha256`
@@ -9,8 +10,137 @@ open Gossamer Gossamer.C29 Gossamer.HashRef Gossamer.SigRef
    `ecv <pub> <msg> <sig64>`      → ok|fail
    `ecr <msg> <sig65>`            → 04‖x‖y | err
    `ecrc <msg> <sig65>`           → 02/03‖x | err
-   `sr <pk> <msg> <sig> <kind>`   → ok|fail by construction (no Lean reference for schnorrkel) -/
+   `mt <app> <clabel> <n> {<label> <msg>}*` → challenge bytes of a merlin transcript
+   `rd <32 bytes>`                → err | canonical ristretto255 re-encoding
+   `rv <k>`                       → encoding of k·B, twice (published constant ‖ library value on the Go side)
+   `sr <pk> <msg> <sig>`          → `<ok|fail> dep=<ok|fail>`  model = go-schnorrkel/gossamer rules,
+                                     spec = Rust schnorrkel rules (Lib/SrRef.lean) -/
 def verdict (b : Bool) : String := if b then "ok" else "fail"
+
+def allHex? : List String → Option (List Bytes)
+  | [] => some []
+  | x :: xs => match ofHex? x, allHex? xs with
+    | some b, some bs => some (b :: bs)
+    | _, _ => none
+
+def appendPairs (t : Transcript) : List Bytes → Transcript
+  | l :: m :: rest => appendPairs (appendMessage t l m) rest
+  | _ => t
+
+/-- is this public key the identity element (the only key go-schnorrkel refuses)? -/
+def isIdentityKey (pk : Bytes) : Bool :=
+  match rDecode pk with
+  | some a => rEq a edId
+  | none => false
+
+def srLine (pk m sg : Bytes) : String :=
+  let model := s!"{verdict (srVerifyGo pk m sg)} dep={verdict (srVerifyDeprecatedGo pk m sg)}"
+  let spec := s!"{verdict (srVerifyRef pk m sg)} dep={verdict (srVerifyDeprecatedRef pk m sg)}"
+  if model == spec then model
+  else s!"{model}\tspec={spec}\tkf={if isIdentityKey pk then "sr25519-identity-key" else "sr25519-deprecated-differs"}"
+
+/-! host functions of lib/runtime/wazero/imports.go -/
+
+def zeros32 : Bytes := List.replicate 32 0
+
+/-- `ext_crypto_sr25519_verify_version_1` as written: 0 only when the public key does not decode;
+    the result of `VerifyDeprecated` is logged, not returned -/
+def hostSr1Go (pk _m _sg : Bytes) : Bool := (rDecode pk).isSome
+
+/-- `ext_crypto_sr25519_verify_version_2` as written: the all-zero key is handed to version 1 -/
+def hostSr2Go (pk m sg : Bytes) : Bool :=
+  if pk == zeros32 then hostSr1Go pk m sg else srVerifyGo pk m sg
+
+/-- `ext_crypto_ecdsa_verify_version_2` as written: BLAKE2b-256 of the message, plain (low-s) ECDSA
+    verification of the first 64 signature bytes; the recovery id is never read -/
+def hostEcvGo (pub m sg : Bytes) : Bool := ecdsaVerify pub (blake2b 32 m) (sg.take 64)
+
+/-- Substrate `ecdsa::Pair::verify`: recover the key from the 65-byte signature (recovery id 0..3, no
+    27 offset) over BLAKE2b-256 of the message and compare its compressed form with the given key -/
+def hostEcvRef (pub m sg : Bytes) : Bool :=
+  if sg.length ≠ 65 ∨ (sg.getD 64 0).toNat > 3 then false else
+  match ecdsaRecover (blake2b 32 m) sg with
+  | some q => ((if natOfBE (q.drop 32) % 2 == 1 then 3 else 2) :: q.take 32) == pub
+  | none => false
+
+def compressQ (q : Bytes) : Bytes := (if natOfBE (q.drop 32) % 2 == 1 then 3 else 2) :: q.take 32
+
+/-- SCALE `Result<[u8; N], EcdsaVerifyError>` as gossamer writes it: `00 ‖ key` or the single byte `01` -/
+def hostRecoverGo (compressed : Bool) (m sg : Bytes) : Bytes :=
+  match ecdsaRecover m sg with
+  | some q => 0 :: (if compressed then compressQ q else q)
+  | none => [1]
+
+/-- the same as Substrate's `secp256k1_ecdsa_recover(_compressed)`: the error carries its variant
+    (BadRS = 0, BadV = 1, BadSignature = 2); version 1 parses r and s "overflowing" (reduced mod n),
+    version 2 rejects r, s ≥ n with BadRS -/
+def hostRecoverRef (ver : Nat) (compressed : Bool) (m sg : Bytes) : Bytes :=
+  let v0 := (sg.getD 64 0).toNat
+  let v := if v0 > 26 then v0 - 27 else v0
+  let r := natOfBE (sg.take 32)
+  let s := natOfBE ((sg.drop 32).take 32)
+  let sg' : Bytes := if ver == 1 then beBytes 32 (r % skN) ++ beBytes 32 (s % skN) ++ [sg.getD 64 0] else sg
+  if ver == 1 then
+    if v > 3 then [1, 1] else
+    match ecdsaRecover m sg' with
+    | some q => 0 :: (if compressed then compressQ q else q)
+    | none => [1, 2]
+  else
+    if v > 3 then [1, 1] else
+    if r ≥ skN || s ≥ skN then [1, 0] else
+    match ecdsaRecover m sg' with
+    | some q => 0 :: (if compressed then compressQ q else q)
+    | none => [1, 2]
+
+def bit (b : Bool) : String := if b then "1" else "0"
+
+/-- one host call: (model, spec, tag) -/
+def hostCall (op : String) (args : List Bytes) : Option (String × String × String) :=
+  match op, args with
+  | "hh", [m] =>
+    let o := s!"{hex (blake2b128 m)} {hex (blake2bHash m)} {hex (keccak256 m)} {hex (sha256 m)} {hex (twox64 m)} {hex (twox128 m)} {hex (twox256 m)}"
+    some (o, o, "")
+  | "hed", [pk, m, sg] =>
+    some (bit (ed25519VerifyGo pk m sg), bit (ed25519VerifyZip215 pk m sg), "ed25519-not-zip215")
+  | "hsr1", [pk, m, sg] =>
+    some (bit (hostSr1Go pk m sg), bit (srVerifyDeprecatedRef pk m sg), "sr25519-v1-always-valid")
+  | "hsr2", [pk, m, sg] =>
+    some (bit (hostSr2Go pk m sg), bit (srVerifyRef pk m sg),
+      if pk == zeros32 then "sr25519-zero-key-always-valid" else "")
+  | "hecv", [pub, m, sg] =>
+    some (bit (hostEcvGo pub m sg), bit (hostEcvRef pub m sg), "ecdsa-verify-ignores-recovery-id")
+  | "hecr1", [m, sg] => some (hex (hostRecoverGo false m sg), hex (hostRecoverRef 1 false m sg), "R")
+  | "hecr2", [m, sg] => some (hex (hostRecoverGo false m sg), hex (hostRecoverRef 2 false m sg), "R")
+  | "hecc1", [m, sg] => some (hex (hostRecoverGo true m sg), hex (hostRecoverRef 1 true m sg), "R")
+  | "hecc2", [m, sg] => some (hex (hostRecoverGo true m sg), hex (hostRecoverRef 2 true m sg), "R")
+  | _, _ => none
+
+/-- the queueing branch (SignatureVerifier started by hand; dead code in production because
+    `ext_crypto_start_batch_verify_version_1` is a no-op): returns 1 once the key parses, the verdict is
+    that of the package-level `VerifySignature` -/
+def hostQueued (op : String) (args : List Bytes) : Option String :=
+  match op, args with
+  | "hed", [pk, m, sg] => some s!"1 batch={ed25519VerifyGo pk m sg}"
+  | "hsr1", [pk, m, sg] | "hsr2", [pk, m, sg] =>
+    if (rDecode pk).isSome then some s!"1 batch={srVerifyGo pk m sg}" else some "0 batch=true"
+  | "hecv", [pub, m, sg] =>
+    if (skParsePub pub).isSome then some s!"1 batch={hostEcvGo pub m sg}" else some "0 batch=true"
+  | _, _ => none
+
+def hostLine (op0 : String) (args : List Bytes) : String :=
+  let mode := op0.front
+  let op : String := if mode == 'b' || mode == 'q' then String.ofList (op0.toList.drop 1) else op0
+  if mode == 'q' then (hostQueued op args).getD "bad-op" else
+  match hostCall op args with
+  | none => "bad-op"
+  | some (model, spec, tag) =>
+    if mode == 'b' && (op == "hh" || tag == "R") then "bad-op" else
+    let sfx := if mode == 'b' then " finish=1" else ""
+    -- recovery: the error variant is missing (tag by cause)
+    let tag := if tag == "R" then
+        (if spec.startsWith "00" then "ecdsa-recover-v1-overflowing" else "ecdsa-recover-error-untyped") else tag
+    if model == spec then model ++ sfx
+    else s!"{model}{sfx}\tspec={spec}{sfx}\tkf={tag}"
 
 def step (line : String) : String :=
   match words line with
@@ -36,7 +166,31 @@ def step (line : String) : String :=
       | some q => (if natOfBE (q.drop 32) % 2 == 1 then "03" else "02") ++ toHex (q.take 32)
       | none => "err"
     | _, _ => "bad-op"
-  | ["sr", _, _, _, kind] => if kind == "honest" then "ok" else "fail"
+  | "mt" :: app :: cl :: n :: rest => match ofHex? app, ofHex? cl, n.toNat?, allHex? rest with
+    | some app, some cl, some n, some ps =>
+      if n == 0 || n > 4096 || ps.length % 2 ≠ 0 then "bad-op"
+      else hex (challengeBytes (appendPairs (newTranscript app) ps) cl n).2
+    | _, _, _, _ => "bad-op"
+  | ["rd", x] => match ofHex? x with
+    | some b => if b.length ≠ 32 then "bad-op" else
+      match rDecode b with
+      | some q => hex (rEncode q)
+      | none => "err"
+    | none => "bad-op"
+  | ["rv", k] => match k.toNat? with
+    | some k => if k > 15 then "bad-op" else
+      let e := hex (rEncode (edMul k edB))
+      s!"{e} {e}"
+    | none => "bad-op"
+  | ["sr", pk, m, sg] => match ofHex? pk, ofHex? m, ofHex? sg with
+    | some pk, some m, some sg => srLine pk m sg
+    | _, _, _ => "bad-op"
+  | op :: rest =>
+    if (op.startsWith "h" || op.startsWith "bh" || op.startsWith "qh") && !rest.isEmpty then
+      match allHex? rest with
+      | some args => hostLine op args
+      | none => "bad-op"
+    else "bad-op"
   | _ => "bad-op"
 
 def main : IO Unit := runDriver step
